@@ -1,5 +1,6 @@
 import Cirbo.Proofs.GenMul
 import Cirbo.Proofs.GenLevels
+import Cirbo.Proofs.GenDadda
 /-!
 # C08 — Multiplier and squarer generators compute exact products
 
@@ -9,7 +10,8 @@ import Cirbo.Proofs.GenLevels
 -- OBLIGATION: c08_mul_default_partial
 -- OBLIGATION: c08_mul_default
 -- OBLIGATION: c08_weighted_levels_positional
--- PARTIAL: proved: the frame theorem for every mode (all are Prog programs), the partial-product matrix (sum_i 2^i*row_i = a*b), add_mul_alter = a*b exactly (positional), add_mul (DEFAULT) = a*b exactly (positional: on gapless weights the weighted sum returns the levels 0,1,2,... in order); only its result width n+m is not proved. Karatsuba (both variants, all recursion thresholds), Dadda, Wallace, 2^k-1 mode and both squarers are modelled one-to-one (Model/Gen3.lean) and compared gate for gate with the code on every run (widths up to 40x40, 48..56 for the squarer split), and the search checks values exhaustively/densely and the result widths on the real generators; their value theorems are not proved yet.
+-- OBLIGATION: c08_mul_dadda
+-- PARTIAL: proved: the frame theorem for every mode (all are Prog programs), the partial-product matrix (sum_i 2^i*row_i = a*b), add_mul_alter = a*b exactly (positional), add_mul (DEFAULT) = a*b exactly (positional: on gapless weights the weighted sum returns the levels 0,1,2,... in order); only its result width n+m is not proved; add_mul_dadda = a*b exactly with its result width (all reduction stages, any operand widths, both endiannesses). Karatsuba (both variants, all recursion thresholds), Wallace, 2^k-1 mode and both squarers are modelled one-to-one (Model/Gen3.lean) and compared gate for gate with the code on every run (widths up to 40x40, 48..56 for the squarer split), and the search checks values exhaustively/densely and the result widths on the real generators; their value theorems are not proved yet.
 -/
 namespace Cirbo
 
@@ -70,11 +72,25 @@ theorem c08_mul_default {st st' : GSt} {x y out : List Label} {be : Bool}
   rw [sem_addMul h3 hx1, valLE_congr (fun l hl => h2 l (hx l (mem_revIf.mp hl))),
     valLE_congr (fun l hl => h2 l (hy l (mem_revIf.mp hl)))]
 
+/-- **`add_mul_dadda`** on arbitrary host gates (any widths, either endianness): the result is exactly
+`a·b`, on `n+m` bits (`n+m-1` when one operand has a single bit) -/
+theorem c08_mul_dadda {st st' : GSt} {x y out : List Label} {be : Bool}
+    (h : (addMulDadda x y be).run st = .ok (out, st')) (hw : WFS st.c)
+    (hx : ∀ l ∈ x, l ∈ st.c.labels) (hy : ∀ l ∈ y, l ∈ st.c.labels) {b v : Label → Bool} (hv : IsValB st.c b v) :
+    ∃ v', IsValB st'.c b v' ∧ (∀ l ∈ st.c.labels, v' l = v l) ∧
+      valLE v' (revIf out be) = valLE v (revIf x be) * valLE v (revIf y be) ∧
+      out.length = if (x.length == 1 || y.length == 1) then x.length + y.length - 1 else x.length + y.length := by
+  obtain ⟨v', h1, h2, h3⟩ := run_total h hw hv
+  refine ⟨v', h1, h2, ?_, sem_addMulDadda_length h3⟩
+  rw [sem_addMulDadda h3, valLE_congr (fun l hl => h2 l (hx l (mem_revIf.mp hl))),
+    valLE_congr (fun l hl => h2 l (hy l (mem_revIf.mp hl)))]
+
 #print axioms c08_generators_only_add_fresh_gates
 #print axioms c08_partial_products
 #print axioms c08_mul_alter
 #print axioms c08_mul_default_partial
 #print axioms c08_mul_default
 #print axioms c08_weighted_levels_positional
+#print axioms c08_mul_dadda
 
 end Cirbo
